@@ -143,6 +143,31 @@ def decode (buf : Bytes) : Option RMsg :=
 
 end DnsRef
 
+/-! ### a reference compressing encoder for names (RFC 1035 §4.1.4), the twin of the harness's `Compressor.name` -/
+
+/-- the two bytes of a compression pointer to offset `t`: `struct.pack("!H", 0xC000 | t)` -/
+def ptrBytes (t : Nat) : Bytes := [UInt8.ofNat (192 ||| (t / 256)), UInt8.ofNat (t % 256)]
+
+/-- suffixes already written and where: the first registration of a suffix wins -/
+abbrev CTable := List (List Bytes × Nat)
+
+/-- write the name `ls` at message offset `pos`: label by label; a suffix that is in the table becomes a pointer; every
+    suffix written at an offset below 0x4000 is registered -/
+def cname (tbl : CTable) (pos : Nat) : List Bytes → Bytes × CTable
+  | [] => ([0], tbl)
+  | l :: ls =>
+    match tbl.lookup (l :: ls) with
+    | some t => (ptrBytes t, tbl)
+    | none =>
+      let tbl1 := if pos < 16384 then tbl ++ [(l :: ls, pos)] else tbl
+      let r := cname tbl1 (pos + 1 + l.length) ls
+      (UInt8.ofNat l.length :: l ++ r.1, r.2)
+
+/-- a sequence of names written one after the other from offset `pos` -/
+def cnames (tbl : CTable) (pos : Nat) : List (List Bytes) → Bytes
+  | [] => []
+  | n :: ns => let r := cname tbl pos n; r.1 ++ cnames r.2 (pos + r.1.length) ns
+
 /-! ### the layer: a message that no addon modifies -/
 
 /-- what `state_query` does with one `DataReceived` whose messages no addon modifies (and, for replies, that answer a
